@@ -975,6 +975,9 @@ func c06Judge(c *Ctx, st *h.Stage, cases []*c06Case) error {
 		}
 		nontriv := !bytes.Equal(cs.src, cs.out)
 		st.Count(cs.key, nontriv)
+		for _, f := range c06Features(cs.toks) {
+			st.Tag(f)
+		}
 		if !inWF {
 			st.Tag("input=not-wf(oracle skipped)")
 			continue
@@ -1181,6 +1184,12 @@ func init() {
 			"<a>x <![CDATA[y]]> z</a>", "<a><![CDATA[y]]>&#32;z</a>", "<a>x <![CDATA[y]]><?pi?> z</a>", "<a><b> </b></a>", "<a><b></b> <c> </c></a>",
 			"<a>]]&gt;</a>", "<a>a ]]&gt; b<![CDATA[c]]]]><![CDATA[>d]]></a>", "<a>a]]<!--c-->>b</a>", "<a><![CDATA[<]]]]><![CDATA[>]]></a>",
 			"<a><![CDATA[<<<<<]]]]><![CDATA[>]]>></a>", "<a>]]]>]>]]&#62;></a>", "<a>]]<![CDATA[]]>></a>", "<a>]]<b/>></a>",
+			// shapes of the seeded changes C06-m4 / C06-m5: nine and more skipped tokens behind a trailing space; `]` `]` `>` in three tokens
+			"<r>price: <!--1--><!--2--><!--3--><!--4--><!--5--><!--6--><!--7--><!--8--><!--9-->10 EUR</r>",
+			"<r>see <?link href=\"a\" type=\"b\" media=\"c\" title=\"d\" rel=\"e\" lang=\"f\" id=\"g\"?>below</r>",
+			"<r>a <!--1--><!--2--><!--3--><!--4--><!--5--><!--6--><!--7--><!--8--><!--9--><!--10--><![CDATA[b]]> <!--1--><?p a=\"1\" b=\"2\" c=\"3\" d=\"4\" e=\"5\" f=\"6\" g=\"7\" h=\"8\"?> c</r>",
+			"<r><![CDATA[a]]]><![CDATA[]]]>&gt;b</r>", "<r>a]<![CDATA[]]]>&gt;b</r>", "<r>a]<!--c-->]<!--c-->&gt;b</r>", "<r><![CDATA[a]]]]><![CDATA[>b]]></r>",
+			"<r>]<!--c-->]<![CDATA[]]>]<!--c-->><![CDATA[]]]]><![CDATA[>]]></r>", "<r>y<a> <?pi?>z</a></r>",
 			"<?php echo \"x\"; ?><a/>", "<?php echo  \"a  b\";  ?><a/>", "<?pi a=\"1\"  free text?><a c=\"d\"/>", "<?pi a= ?><a/>", "<a>x <?pi a=\"1\"?>y</a>", "<a><b/> <c/></a>", "<a>&amp;&#35;60;</a>", "<a>&#38;lt;</a>",
 		}
 		var cases []*c06Case
@@ -1211,6 +1220,32 @@ func init() {
 		for i := 0; i < n; i++ {
 			r := c.Rng.Fork()
 			doc := []byte(c06Doc(r, c.Thorough()))
+			for _, keep := range []bool{false, true} {
+				if cs := c06Prepare(c, st, doc, keep); cs != nil {
+					cases = append(cases, cs)
+				}
+			}
+			if len(cases) >= 20000 {
+				if err := flush(); err != nil {
+					return err
+				}
+			}
+		}
+		if err := flush(); err != nil {
+			return err
+		}
+		st.End()
+
+		// ---- dense documents: long skipped runs, character data cut into many tokens, edges of attribute values, long names ----
+		st = c.R.StartStage("dense", "seeded documents built around token boundaries (c06_dense.go): runs of 0-40 (rarely up to 300) tokens that the trailing-space look-ahead skips (comments, PIs with 0-12 pseudo-attributes, DOCTYPE in the prolog) and empty CDATA between pieces of character data with all four combinations of white space at the boundary; one logical string of character data (`]`, `]]`, `>`, `]]>`, CR LF, `&`/`<` before name characters, words) cut at random positions into 1-6 text/CDATA tokens, each character literally or as a reference; attribute values with quotes/references/white space first and last; names, values, words, comments, CDATA of 31-5000 bytes; 3 % with character data outside the root element (correspondence only) x {keepWhitespace off,on}; same comparisons as stage fixed; the distribution counts, per measured shape of the real lexer's token list, the cases that contain it; non-trivial = output differs from input")
+		nd := c.N(6000, 120000)
+		if c.Search {
+			nd *= 4
+		}
+		cases = cases[:0]
+		for i := 0; i < nd; i++ {
+			r := c.Rng.Fork()
+			doc := []byte(c06DenseDoc(r))
 			for _, keep := range []bool{false, true} {
 				if cs := c06Prepare(c, st, doc, keep); cs != nil {
 					cases = append(cases, cs)
